@@ -54,7 +54,7 @@ theorem cont_isDoc_addRecords (t c' : Nat) : ∀ (rs : List Nat) (h : Heap),
 theorem unifiedBundle_result (h : Heap) (c : Nat) (h' : Heap) (ub : Nat) (hres : h.unifiedBundle c = (h', .ok ub)) :
     (h'.cont ub).isDoc = false ∧ h.conts.size ≤ ub ∧ ub < h'.conts.size := by
   unfold unifiedBundle at hres
-  have s1 := frameB_unifiedRecords 0 0 h c (Nat.zero_le _)
+  have s1 := frameB_unifiedRecords 0 0 h c (Nat.zero_le _) (Nat.zero_le _)
   generalize h.unifiedRecords c = res at hres s1
   obtain ⟨h1, e⟩ := res
   cases e with
@@ -125,13 +125,6 @@ theorem unifiedGo_keeps (nd : Nat) : ∀ (bs : List (QName × Nat)) (h h' : Heap
               have := s1.rsize
               omega
 
-theorem good_allocCont {h : Heap} (g : Good h) (isDoc : Bool) (id : Option QName) (nss : List Ns) (doc : Option Nat) :
-    Good (h.allocCont isDoc id nss doc).1 :=
-  ⟨heapNormal_allocCont g.normal isDoc id nss doc, heapExtra_allocCont g.extra isDoc id nss doc,
-    wfRecs_allocCont g.wf isDoc id nss doc, fun r => by
-      have : (h.allocCont isDoc id nss doc).1.recCell r = h.recCell r := by simp [recCell, allocCont, allocMgr]
-      rw [this]; exact g.noColl r⟩
-
 theorem good_copyDefault {h : Heap} (g : Good h) (nd : Nat) (dn : Option Ns) : Good (h.copyDefault nd dn) := by
   unfold copyDefault
   cases dn with
@@ -174,8 +167,8 @@ theorem c08_unifiedDoc_top (h : Heap) (d : Nat) (g : Good h) (hd : d < h.conts.s
   have hd2 : h2.cont d = h.cont d := by rw [hc2, a3 d hd]
   unfold unifiedInto at hres
   have g3 := good_unifiedRecords g2 d
-  have hsz := (frameB_unifiedRecords 0 0 h2 d (Nat.zero_le _))
-  have hcu := (frameB_unifiedRecords (n1 + 1) 0 h2 d (Nat.zero_le _))
+  have hsz := (frameB_unifiedRecords 0 0 h2 d (Nat.zero_le _) (Nat.zero_le _))
+  have hcu := (frameB_unifiedRecords (n1 + 1) 0 h2 d (by rw [hs2, hsz1, a1]; exact Nat.le_refl _) (Nat.zero_le _))
   cases hur : h2.unifiedRecords d with
   | mk h3 e =>
     rw [hur] at hres g3 hsz hcu
